@@ -83,11 +83,13 @@ pub enum Sel {
 #[serde(tag = "t")]
 pub enum Step {
     Add { opts: AddOpts, fail: Vec<u32> },
-    Start { sel: Sel, interval: bool, fail: Vec<u32>, silent: bool },
-    Stop { sel: Sel, fail: Vec<u32> },
-    Remove { sel: Sel, keep_dirs: bool, fail: Vec<u32> },
+    /// `die_at`: the managed process the call is about dies right before OS/RPC call #n of this invocation
+    /// (all calls are counted, pid lookups included)
+    Start { sel: Sel, interval: bool, fail: Vec<u32>, silent: bool, #[serde(default)] die_at: Option<u32> },
+    Stop { sel: Sel, fail: Vec<u32>, #[serde(default)] die_at: Option<u32> },
+    Remove { sel: Sel, keep_dirs: bool, fail: Vec<u32>, #[serde(default)] die_at: Option<u32> },
     /// `ver` indexes UPGRADE_VERSIONS; `env`: `--env` given on the upgrade command line
-    Upgrade { sel: Sel, force: bool, do_not_start: bool, ver: u8, env: Option<u8>, interval: bool, fail: Vec<u32>, silent: bool },
+    Upgrade { sel: Sel, force: bool, do_not_start: bool, ver: u8, env: Option<u8>, interval: bool, fail: Vec<u32>, silent: bool, #[serde(default)] die_at: Option<u32> },
     /// `antctl status`: refresh + save
     Status { fail: Vec<u32> },
     /// nat-detection result recorded in the registry (0 public, 1 upnp, 2 private)
@@ -109,6 +111,18 @@ impl Step {
             | Step::Remove { fail, .. }
             | Step::Upgrade { fail, .. }
             | Step::Status { fail } => Some(fail),
+            _ => None,
+        }
+    }
+    pub fn die_at_mut(&mut self) -> Option<&mut Option<u32>> {
+        match self {
+            Step::Start { die_at, .. } | Step::Stop { die_at, .. } | Step::Remove { die_at, .. } | Step::Upgrade { die_at, .. } => Some(die_at),
+            _ => None,
+        }
+    }
+    pub fn die_at(&self) -> Option<u32> {
+        match self {
+            Step::Start { die_at, .. } | Step::Stop { die_at, .. } | Step::Remove { die_at, .. } | Step::Upgrade { die_at, .. } => *die_at,
             _ => None,
         }
     }
@@ -348,15 +362,18 @@ fn gen_c19(rng: &mut Rng, ctx: &GenCtx) -> Plan {
                 interval: rng.chance(1, 3),
                 fail: gen_fail(rng, fault, p_fail, 12),
                 silent: fault && rng.chance(1, 12),
+                die_at: None,
             },
             2 => Step::Stop {
                 sel: gen_sel(rng),
                 fail: gen_fail(rng, fault, p_fail, 8),
+                die_at: None,
             },
             3 => Step::Remove {
                 sel: gen_sel(rng),
                 keep_dirs: rng.chance(1, 3),
                 fail: gen_fail(rng, fault, p_fail, 8),
+                die_at: None,
             },
             4 => Step::Upgrade {
                 sel: gen_sel(rng),
@@ -367,6 +384,7 @@ fn gen_c19(rng: &mut Rng, ctx: &GenCtx) -> Plan {
                 interval: rng.chance(1, 3),
                 fail: gen_fail(rng, fault, p_fail, 14),
                 silent: fault && rng.chance(1, 12),
+                die_at: None,
             },
             5 => Step::Status {
                 fail: gen_fail(rng, fault, p_fail, 4),
@@ -377,6 +395,22 @@ fn gen_c19(rng: &mut Rng, ctx: &GenCtx) -> Plan {
             _ => Step::Corrupt { how: rng.below(1 << 16) as u32 },
         };
         steps.push(s);
+    }
+    // a managed process dies in the middle of an invocation (right before OS/RPC call #n)
+    let p_die = if fault && rng.chance(2, 3) { rng.range(1, 4) } else { 0 };
+    for st in steps.iter_mut() {
+        // never combined with an injected call failure in the same invocation (see assumptions)
+        let clean = match st {
+            Step::Start { fail, silent, .. } | Step::Upgrade { fail, silent, .. } => fail.is_empty() && !*silent,
+            Step::Stop { fail, .. } | Step::Remove { fail, .. } => fail.is_empty(),
+            _ => false,
+        };
+        if let Some(d) = st.die_at_mut() {
+            let _ = clean;
+            if p_die > 0 && rng.chance(p_die, 10) {
+                *d = Some(rng.below(12) as u32);
+            }
+        }
     }
     steps.push(Step::Status { fail: vec![] });
     // enumeration of the failing call index of one operation (all runs in thorough, a few in quick)
@@ -430,12 +464,13 @@ fn gen_c20(rng: &mut Rng, ctx: &GenCtx) -> Plan {
             interval: rng.chance(1, 2),
             fail: f(rng, 8),
             silent: faulty && rng.chance(1, 10),
+            die_at: None,
         });
         if faulty && rng.chance(1, 3) {
             steps.push(Step::Kill { sel: rng.below(4) as u32 });
         }
         if rng.chance(1, 2) {
-            steps.push(Step::Stop { sel: gen_sel(rng), fail: f(rng, 6) });
+            steps.push(Step::Stop { sel: gen_sel(rng), fail: f(rng, 6), die_at: None });
         }
     }
     if rng.chance(1, 4) {
@@ -452,6 +487,7 @@ fn gen_c20(rng: &mut Rng, ctx: &GenCtx) -> Plan {
             interval: rng.chance(1, 2),
             fail: vec![rng.below(10) as u32],
             silent: false,
+            die_at: None,
         });
     }
     let n_up = if rng.chance(1, 4) { 2 } else { 1 };
@@ -465,9 +501,25 @@ fn gen_c20(rng: &mut Rng, ctx: &GenCtx) -> Plan {
             interval: rng.chance(1, 2),
             fail: vec![],
             silent: false,
+            die_at: None,
         });
         if i == 0 && n_up == 2 && rng.chance(1, 2) {
-            steps.push(Step::Stop { sel: Sel::All, fail: vec![] });
+            steps.push(Step::Stop { sel: Sel::All, fail: vec![], die_at: None });
+        }
+    }
+    if faulty {
+        for st in steps.iter_mut() {
+            let clean = match st {
+                Step::Start { fail, silent, .. } | Step::Upgrade { fail, silent, .. } => fail.is_empty() && !*silent,
+                Step::Stop { fail, .. } | Step::Remove { fail, .. } => fail.is_empty(),
+                _ => false,
+            };
+            if let Some(d) = st.die_at_mut() {
+                let _ = clean;
+                if rng.chance(1, 8) {
+                    *d = Some(rng.below(10) as u32);
+                }
+            }
         }
     }
     Plan {
@@ -556,6 +608,7 @@ impl Sim for ServicesSim {
                     "an injected get_process_pid failure is ServiceProcessNotFound for a live process (what the real sysinfo scan yields when the exe link is unreadable)",
                     "OS-assigned ports are never reused by the simulated OS; user-requested node/metrics/rpc ports come from disjoint small pools so collisions happen only between add commands",
                     "externally killed processes stay dead (no auto-restart by the simulated service manager)",
+                    "a process death in the middle of an invocation happens right before an OS/RPC call and hits the process that call is about (pid lookup: that binary; start/stop/uninstall/install: that label; RPC: that endpoint)",
                 ],
             },
             PropertySpec {
@@ -594,6 +647,9 @@ impl Sim for ServicesSim {
                 let mut p = plan.clone();
                 p.enumerate = None;
                 p.all_prefixes = false;
+                if let Some(d) = p.steps.get_mut(s).and_then(|st| st.die_at_mut()) {
+                    *d = None;
+                }
                 if let Some(f) = p.steps.get_mut(s).and_then(|st| st.fail_mut()) {
                     *f = vec![i];
                     out.push(p);
@@ -625,22 +681,30 @@ impl Sim for ServicesSim {
                     v.push(c);
                 }
             }
+            if s.die_at().is_some() {
+                let mut c3 = s.clone();
+                if let Some(d) = c3.die_at_mut() {
+                    *d = None;
+                }
+                v.push(c3);
+            }
             match s {
-                Step::Start { sel, interval, fail, silent: true } => v.push(Step::Start {
+                Step::Start { sel, interval, fail, silent: true, die_at } => v.push(Step::Start {
+                    die_at: *die_at,
                     sel: sel.clone(),
                     interval: *interval,
                     fail: fail.clone(),
                     silent: false,
                 }),
-                Step::Upgrade { sel, force, do_not_start, ver, env, interval, fail, silent } => {
+                Step::Upgrade { sel, force, do_not_start, ver, env, interval, fail, silent, die_at } => {
                     if *silent {
-                        v.push(Step::Upgrade { sel: sel.clone(), force: *force, do_not_start: *do_not_start, ver: *ver, env: *env, interval: *interval, fail: fail.clone(), silent: false });
+                        v.push(Step::Upgrade { sel: sel.clone(), force: *force, do_not_start: *do_not_start, ver: *ver, env: *env, interval: *interval, fail: fail.clone(), silent: false, die_at: *die_at });
                     }
                     if env.is_some() {
-                        v.push(Step::Upgrade { sel: sel.clone(), force: *force, do_not_start: *do_not_start, ver: *ver, env: None, interval: *interval, fail: fail.clone(), silent: *silent });
+                        v.push(Step::Upgrade { sel: sel.clone(), force: *force, do_not_start: *do_not_start, ver: *ver, env: None, interval: *interval, fail: fail.clone(), silent: *silent, die_at: *die_at });
                     }
                     if !*do_not_start {
-                        v.push(Step::Upgrade { sel: sel.clone(), force: *force, do_not_start: true, ver: *ver, env: *env, interval: *interval, fail: fail.clone(), silent: *silent });
+                        v.push(Step::Upgrade { sel: sel.clone(), force: *force, do_not_start: true, ver: *ver, env: *env, interval: *interval, fail: fail.clone(), silent: *silent, die_at: *die_at });
                     }
                 }
                 Step::Add { opts, fail } => {
